@@ -68,7 +68,7 @@ impl TypeRegistry {
         self.announced.insert(item_path);
     }
 
-    fn is_item_path(&self, item_path: &ItemPath) -> bool {
+    pub(crate) fn is_item_path(&self, item_path: &ItemPath) -> bool {
         self.types.contains_key(item_path) || self.announced.contains(item_path)
     }
 
